@@ -63,8 +63,38 @@ pub fn register(m: &mut HashMap<&'static str, OpFn>) {
     });
     m.insert("sc.neg", |a| sc_out(&(-a.sc(0))));
     m.insert("sc.negref", |a| sc_out(&(-&a.sc(0))));
-    m.insert("sc.sum", |a| sc_out(&a.sc_list(0).iter().sum::<Scalar>()));
-    m.insert("sc.product", |a| sc_out(&a.sc_list(0).iter().product::<Scalar>()));
+    // sums / products over iterators of different shapes: slice iterator (exact size hint), by value, an adaptor whose
+    // lower size bound is 0, a chain of two halves, a generator without any hint: all must agree
+    m.insert("sc.sum", |a| {
+        let v = a.sc_list(0);
+        let mut o = sc_out(&v.iter().sum::<Scalar>());
+        let h = v.len() / 2;
+        let mut it = v.clone().into_iter();
+        for x in [
+            v.clone().into_iter().sum::<Scalar>(),
+            v.iter().filter(|_| true).sum::<Scalar>(),
+            v[..h].iter().chain(v[h..].iter()).sum::<Scalar>(),
+            std::iter::from_fn(|| it.next()).sum::<Scalar>(),
+        ] {
+            o.push(hex(&x.to_bytes()));
+        }
+        o
+    });
+    m.insert("sc.product", |a| {
+        let v = a.sc_list(0);
+        let mut o = sc_out(&v.iter().product::<Scalar>());
+        let h = v.len() / 2;
+        let mut it = v.clone().into_iter();
+        for x in [
+            v.clone().into_iter().product::<Scalar>(),
+            v.iter().filter(|_| true).product::<Scalar>(),
+            v[..h].iter().chain(v[h..].iter()).product::<Scalar>(),
+            std::iter::from_fn(|| it.next()).product::<Scalar>(),
+        ] {
+            o.push(hex(&x.to_bytes()));
+        }
+        o
+    });
     m.insert("sc.invert", |a| sc_out(&a.sc(0).invert()));
     m.insert("sc.batchinv", |a| {
         let mut v = a.sc_list(0);
